@@ -36,15 +36,23 @@ SErr(e) == [ok |-> FALSE, v |-> VNone, exc |-> e]
 \* and decimal.Decimal (whole values, [k: "dec", i]), which mixes with ints but not with float / Fraction
 VDec(i)   == [k |-> "dec", i |-> i]
 \* bool is an int (False + 1 = 1)
-IsNum(v)  == v.k \in {"int", "frac", "dec", "bool"}
+\* binary floats whose sums are not exact (2.0 ** 53, 1.0, -2.0 ** 53, 0.1: VFn("fB") ...): the law fixes
+\* the ORDER of the additions - reduce adds left to right - and leaves each single `+` to Python: a sum
+\* involving such a float is the term [k: "fsum", l, r] (a * 10 + b: "fdig"), which the harness evaluates
+\* with Python's own float addition
+IsFlt(v)  == v.k \in {"fn", "fsum", "fdig"}
+IsNum(v)  == v.k \in {"int", "frac", "dec", "bool"} \/ IsFlt(v)
 IntOf(v)  == IF v.k = "bool" THEN (IF v.b THEN 1 ELSE 0) ELSE v.i
-NumCompat(a, b) == ~(a.k = "dec" /\ b.k = "frac") /\ ~(a.k = "frac" /\ b.k = "dec")
+NumCompat(a, b) == /\ ~(a.k = "dec" /\ b.k = "frac") /\ ~(a.k = "frac" /\ b.k = "dec")
+                   /\ ~(a.k = "dec" /\ IsFlt(b)) /\ ~(IsFlt(a) /\ b.k = "dec")
 Halves(v) == IF v.k \in {"int", "bool"} THEN 2 * IntOf(v) ELSE IF v.d = 1 THEN 2 * v.n ELSE v.n
 FromHalves(h, frac) ==
   IF ~frac THEN VInt(h \div 2) ELSE IF h % 2 = 0 THEN VFrac(h \div 2, 1) ELSE VFrac(h, 2)
-NumAdd(a, b)    == IF a.k = "dec" \/ b.k = "dec" THEN VDec(IntOf(a) + IntOf(b))
+NumAdd(a, b)    == IF IsFlt(a) \/ IsFlt(b) THEN [k |-> "fsum", l |-> a, r |-> b]
+                   ELSE IF a.k = "dec" \/ b.k = "dec" THEN VDec(IntOf(a) + IntOf(b))
                    ELSE FromHalves(Halves(a) + Halves(b), a.k = "frac" \/ b.k = "frac")
-NumDigits(a, b) == IF a.k = "dec" \/ b.k = "dec" THEN VDec(IntOf(a) * 10 + IntOf(b))
+NumDigits(a, b) == IF IsFlt(a) \/ IsFlt(b) THEN [k |-> "fdig", l |-> a, r |-> b]
+                   ELSE IF a.k = "dec" \/ b.k = "dec" THEN VDec(IntOf(a) * 10 + IntOf(b))
                    ELSE FromHalves(Halves(a) * 10 + Halves(b), a.k = "frac" \/ b.k = "frac")
 
 \* characters of the strings the universes use (TLC cannot index strings): "", "uv" and
@@ -52,7 +60,7 @@ NumDigits(a, b) == IF a.k = "dec" \/ b.k = "dec" THEN VDec(IntOf(a) * 10 + IntOf
 \* Python's == between dict keys: numbers are equal by value whatever their type (1 == 1.0 == True);
 \* the dict keeps the key object that came first
 NumVal(v) == IF v.k = "frac" THEN <<v.n, v.d>> ELSE <<IntOf(v), 1>>
-PyEq(a, b) == IF IsNum(a) /\ IsNum(b) THEN NumVal(a) = NumVal(b) ELSE a = b
+PyEq(a, b) == IF IsNum(a) /\ IsNum(b) /\ ~IsFlt(a) /\ ~IsFlt(b) THEN NumVal(a) = NumVal(b) ELSE a = b
 RECURSIVE PFind(_, _, _)
 PFind(items, key, i) == IF i > Len(items) THEN 0 ELSE IF PyEq(items[i][1], key) THEN i ELSE PFind(items, key, i + 1)
 PHas(items, key) == PFind(items, key, 1) # 0
